@@ -213,9 +213,20 @@ impl<T> Mutex<T> {
                     inner: Some(p.into_inner()),
                 }))
             }
-            Err(::std::sync::TryLockError::WouldBlock) => {
-                panic!("verif shim: simulated mutex owned, but the real one is locked")
-            }
+            // Only reachable while a simulation is being torn down (threads
+            // unwinding concurrently): fall back to a real, blocking lock.
+            Err(::std::sync::TryLockError::WouldBlock) => match self.inner.lock() {
+                Ok(g) => Ok(MutexGuard {
+                    mutex: self,
+                    rt,
+                    inner: Some(g),
+                }),
+                Err(p) => Err(::std::sync::PoisonError::new(MutexGuard {
+                    mutex: self,
+                    rt,
+                    inner: Some(p.into_inner()),
+                })),
+            },
         }
     }
 }
